@@ -30,14 +30,15 @@ type CMap struct {
 	ValueSize  *int   `json:"value_size"`
 }
 type CFacts struct {
-	Errors    []string                  `json:"errors"`
-	Warnings  int                       `json:"warnings"`
-	Records   map[string]CRecord        `json:"records"`
-	Enums     map[string]map[string]int `json:"enums"`
-	Maps      map[string]CMap           `json:"maps"`
-	Macros    map[string]int64          `json:"macros"`
-	Functions []string                  `json:"functions"`
-	TopLevel  int                       `json:"top_level_decls"`
+	Errors    []string                     `json:"errors"`
+	Warnings  int                          `json:"warnings"`
+	Records   map[string]CRecord           `json:"records"`
+	Enums     map[string]map[string]int    `json:"enums"`
+	Maps      map[string]CMap              `json:"maps"`
+	Macros    map[string]int64             `json:"macros"`
+	Functions []string                     `json:"functions"`
+	RecFields map[string]map[string]string `json:"record_fields"`
+	TopLevel  int                          `json:"top_level_decls"`
 	FuncSrc   map[string]struct {
 		Line int    `json:"line"`
 		Text string `json:"text"`
